@@ -5,6 +5,7 @@ from __future__ import annotations
 import ast
 
 from gv import rules
+from gv.astutil import const_value
 from gv.astutil import dotted
 from gv.astutil import last_attr
 from gv.astutil import mangle
@@ -490,8 +491,36 @@ def check_hit_untouched(ctx: Ctx) -> None:
     ctx.counts["5.9-sites"] = n_sites
 
 
+def check_last_accessed(ctx: Ctx) -> None:
+    """5.10: after the inputs of an entry have been located or created, the 'last accessed' index designates THAT entry.
+
+    cache_outputs / cache_jacobian write into the entry designated by _last_accessed_index: every way out of
+    BaseFullCache.__ensure_input_data_exists must have set it (to the matching index, or to the new one).
+    """
+    f = ctx.index.method(BFC, "BaseFullCache", "__ensure_input_data_exists")
+    con = cname(BFC, "BaseFullCache", "__ensure_input_data_exists")
+    cfg = cfg_of(f)
+    sets = [s_ for s_ in stmts_of(f) if isinstance(s_, ast.Assign) and norm_stmt(s_.targets[0]) == "self._last_accessed_index.value"]
+    rets = [r for r in stmts_of(f) if isinstance(r, ast.Return)]
+    ctx.need(rets, "__ensure_input_data_exists: no return")
+    for r in rets:
+        rn = cfg.node_of(r)
+        dom = [s_ for s_ in sets if cfg.dominates(cfg.node_of(s_), rn)]
+        found = const_value(r.value, None) is False
+        ok = bool(dom)
+        if ok and found:
+            # the index stored is the one whose inputs were compared equal
+            loops = [lp for lp in stmts_of(f) if isinstance(lp, ast.For) and any(sub is r for sub in ast.walk(lp))]
+            ok = bool(loops) and any(dotted(s_.value) == dotted(loops[-1].target) for s_ in dom)
+        elif ok:
+            ok = any("_max_index" in norm_stmt(s_.value) for s_ in dom)
+        ctx.ob("5.10-last-accessed", con, ok, ("an existing entry was found" if found else "a new entry was created") + " but the last-accessed index is not set to it on this way out: the outputs / Jacobian cached next are written into ANOTHER entry (the one accessed before), and a later hit on that entry returns them", node=r, stmt=("found" if found else "created") + ": last accessed index designates the entry")
+    ctx.floor("5.10-last-accessed", 3)
+
+
 def run(ctx: Ctx) -> None:
     check_execute(ctx)
+    check_last_accessed(ctx)
     check_hit_untouched(ctx)
     check_copies(ctx)
     check_simple_cache(ctx)
